@@ -88,3 +88,26 @@ class APt(SerializableType, use_annotations=True):
 
     def __repr__(self):
         return f"APt({self.d!r})"
+
+
+class Bag(SerializableType, use_annotations=True):
+    """Annotated SerializableType whose _serialize hands out its OWN list (wire form: list of int)."""
+
+    def __init__(self, items):
+        self.items = items
+
+    def _serialize(self) -> List[int]:
+        return self.items
+
+    @classmethod
+    def _deserialize(cls, value: List[int]):
+        return cls(value)
+
+    def __eq__(self, o):
+        return type(o) is Bag and o.items == self.items
+
+    def __hash__(self):
+        return hash(tuple(self.items))
+
+    def __repr__(self):
+        return f"Bag({self.items!r})"
